@@ -59,7 +59,7 @@ theorem processDeal_cases (g : G) (d : Gen F G) (dd : DkgDeal F G) (hd : GoodGen
             have hown : d.index < ver.vs.length := by rw [hvv]; exact hd.lt
             have hga : getResponse a d.index = some r := by
               rw [getResponse_fresh_set a ver.vs.length d.index d.index r hown (by rw [h4, hvi])]; simp
-            rcases unsafeSet_agg ({ ver with agg := some a } : Verifier F G) dd.index a rfl with hu | ⟨a', hu, hlt, hnn, ha'⟩
+            rcases unsafeSet_agg ({ ver with agg := some a, approved := r.status } : Verifier F G) dd.index a rfl with hu | ⟨a', hu, hlt, hnn, ha'⟩
             · exact ⟨r, a, rfl, hu, hga, fun hs => by rw [h7 hs]; rfl⟩
             · refine ⟨r, a', rfl, hu, ?_, fun hs => by rw [ha']; simp [h7 hs]⟩
               have hjl : dd.index < a.responses.length := by rw [h4]; simp; rw [← h1]; exact hlt
